@@ -24,7 +24,7 @@ def sh(cmd, cwd=None, env=None, timeout=3600):
 def one(name, wt):
     d = os.path.join(V, "seeded", name)
     meta = json.load(open(os.path.join(d, "meta.json")))
-    prop = meta.get("property") or name[:3]
+    prop = meta.get("caught_by_check") or meta.get("property") or name[:3]   # caught_by_check: the check that decides it when that is not the property's own
     res = {"repo_head": HEAD}
     demo = os.path.join(os.path.dirname(wt), "demo")
     shutil.rmtree(demo, ignore_errors=True)
